@@ -43,6 +43,18 @@ CLAIMED = {
             "Kernel-checked about the code's own determinants: value = (x1-x3)(x2-x4)/((x1-x4)(x2-x3)) cross-multiplied, the Gram determinant / det[o,a,b] cancels; symmetries of the closed form; cr = -1 for the harmonic parameter; the quadrilateral construction returns the harmonic conjugate for any auxiliary point. Tied by differential runs (points 2-D/3-D, from a point, concurrent lines with vertices on axes / at infinity, coaxial planes, invariance under random projective maps, NotCollinear / NotConcurrent, harmonic_set incl. special lines).",
             NOTE_COMMON + "Coaxial planes and 3-D harmonic_set go through basis matrices (correspondence only).",
             "DESIGN.md 7/C11"),
+    "C16": ("Lean 4: the arithmetic of SegmentTensor.contains and Triangle.contains is regenerated from shapes.py (ast translator) and proved: z = -tD, w = -D (Gram determinant), interval test <=> 0<=t<=1; barycentric determinants = alpha,beta,gamma x det, sign test <=> closed triangle (ordered fields, linarith); polygon membership: correspondence against an independent exact even-odd specification, exhaustive over lattice polygons in the thorough tier",
+            "Kernel-checked about the code's own expressions, for every ordered field: the segment test decides 0<=t<=1 whenever the endpoints are independent (Gram determinant > 0 by a Lagrange identity), the triangle test decides alpha,beta,gamma>=0 for both orientations, boundary included. Polygon.contains (ray casting with vertex/edge special cases, 3-D projection) is decided by differential runs against Spec.inPolygon (a different algorithm) on every lattice and half-lattice query point, all rotations/reversals of the cycle, embedded copies in 3-space, points off the plane and at infinity.",
+            NOTE_COMMON + "The polygon crossing rule itself is not proved (exhaustive enumeration on the 4x4 lattice instead, labelled as a test); that even-odd parity is the closed region of a simple polygon is classical.",
+            "DESIGN.md 7/C16"),
+    "C17": ("Lean 4: fan sum = shoelace sum for every number of vertices (induction over the vertex list), affine maps scale fan terms by det, Binet-Cauchy for the 3-D projection, Cayley-Menger for a triangle, midpoint as harmonic conjugate; correspondence of area/centroid/volume/length/midpoint/circumcenter/regular polygons/cuboids/== with exact S-layer values incl. moved objects",
+            "Kernel-checked: the summation the code performs (det[v0,vi,vi+1]) equals the shoelace formula for all n; isometry invariance of each term; projected area = n.(vector area); CM = 4(|u|²|v|²-(u.v)²). Tied by differential runs (roll/flip, far from the origin, embedded in 3-space, after rotations+translations applied to the object so that cached planes must follow, concave polygons for the centroid, tetrahedra, Cayley-Menger triangles, RegularPolygon at arbitrary centres, polyhedra equality under face reordering).",
+            NOTE_COMMON + "centroid, circumcenter, RegularPolygon and == are decided by correspondence only.",
+            "DESIGN.md 7/C17"),
+    "C18": ("Lean 4: soundness/completeness lemmas for 'meet of supporting subspaces filtered by membership' (common point of two lines is their meet; parallel -> at infinity; collinear -> zero vector) on top of C01/C16; correspondence with exactly computed common points (Lean meets + S-layer membership), exhaustive over lattice segment pairs in the thorough tier",
+            "Kernel-checked: a point on two distinct coplanar lines is proportional to their cross product, the cross product lies on both, parallel lines meet at infinity, identical lines give the zero vector (dropped by is_zero). Tied by differential runs: every pair of segments on the 3x3 lattice (thorough), 3-D crossing/skew/touching segments, segment x line/plane incl. parallel, lattice polygons x lines/segments (through vertices, along edges, missing), pierced 3-D polygons, in-plane lines, cuboids x lines (faces, edges, vertices, diagonal, miss) also after .area; each common point exactly once.",
+            NOTE_COMMON + "Counting statements for convex bodies are decided by correspondence only.",
+            "DESIGN.md 7/C18"),
     "C19": ("Lean 4: model of _get_index_mapping/normalize_index vs an independent model of NumPy's indexing semantics: complete kernel-evaluated table (<=3 components, rank<=4) on the agreeing fragment + kernel-checked counterexamples outside it; type read-off and transpose lemmas (induction-free list reasoning); affine point arithmetic; correspondence: arithmetic with all operand pairings / ufunc routes, exhaustive index expressions (thorough)",
             "Kernel-checked: on the fragment (no >=2-D mask, no integer or None together with an array index) the code's axis mapping equals NumPy's for every index expression of <=3 components and rank <=4 (finite table, labelled as such), is provably different on three witnesses outside it (known findings KF-C19-1/2/3, replayed on the implementation every run); index types are read off the mapping; transpose types; point +/- is affine with points at infinity as directions. Tied by differential runs: value = numpy's own array[index], types = reference model (itself cross-checked against numpy's result ndim), arithmetic for Tensor/Point/Quadric x tensor/array/list/scalar x operator/ufunc.",
             "Trusted: Lean kernel + standard axioms; numpy's array[index] as value reference; the harness. The unbounded-length statement for basic indexing is not proved (finite table only); elementwise arithmetic on arrays is decided by correspondence.",
